@@ -506,6 +506,10 @@ impl TensorWal {
             Err(e) => return Err(e.into()),
         };
 
+        // A record can never be longer than what is left in the file; a larger length prefix is a
+        // torn or corrupt tail and must not drive an allocation.
+        let file_len = file.metadata().map_or(u64::MAX, |m| m.len());
+        let mut pos = 0u64;
         let mut reader = BufReader::new(file);
         let mut entries = Vec::new();
         let mut entry_index = 0;
@@ -530,6 +534,12 @@ impl TensorWal {
             }
 
             let stored_checksum = u32::from_le_bytes(checksum_buf);
+
+            pos += 8;
+            if len as u64 > file_len.saturating_sub(pos) {
+                break; // Partial write / corrupt length
+            }
+            pos += len as u64;
 
             // Read payload
             let mut data = vec![0u8; len];
